@@ -610,7 +610,7 @@ class Tr:
         if ty == 'string': return 'Rs.Str'
         if ty == 'strings': return 'Rs.Str'
         if ty == 'unit': return 'Unit'
-        if ty == 'chunks': return 'List Bytes'
+        if ty == 'chunks': return '(List Bytes)'
         if isinstance(ty, tuple):
             if ty[0] == 'struct':
                 n = self_ty if ty[1] == 'Self' else ty[1]
